@@ -4,7 +4,8 @@ from progscript import run_script, native_script
 from c26 import fld, ref_sets
 import struct as _struct
 
-QS, FN, WN, EN, GN = [0, 1], ["a", "b"], ["wa", "wb"], ["ea", "eb"], ["RX", "RY"]
+# the waveform and the extern alphabets share the name `wa`: the two name spaces must be pruned independently
+QS, FN, WN, EN, GN = [0, 1], ["a", "b"], ["wa", "wb"], ["ea", "wa"], ["RX", "RY"]
 FLAT = "flat(duration: 1.0, iq: 1.0)"
 DEFS = [
     Tpl("fr", 'DEFFRAME {q} "{f}":\n\tDIRECTION: "tx"', q=("int", QS), f=("str", FN)),
@@ -24,6 +25,7 @@ CALS = [
     Tpl("cal-fence", "DEFCAL {g} v:\n\tFENCE v", g=("str", GN)),
     Tpl("cal-fixed", 'DEFCAL {g} {r}:\n\tPULSE {r} "{f}" {w}', g=("str", GN), r=("int", QS), f=("str", FN), w=("str", WN)),
     Tpl("cal-measure", 'DEFCAL MEASURE v addr:\n\tCAPTURE v "{f}" {w} addr[0]', f=("str", FN), w=("str", WN)),
+    Tpl("cal-declare", "DEFCAL {g} v:\n\tDECLARE tmp REAL[1]\n\tFENCE v", g=("str", GN)),
 ]
 BODY = [
     Tpl("gate1", "{g} {q}", g=("str", GN), q=("int", QS)),
@@ -76,6 +78,10 @@ def oracle(req, decide, td, obs, m=None):
         for x, y in zip(b_s, b_e):
             if not req("body:instruction", y[0], tree_eq(x, y, m)): break
     src = split(l_p, len(l_p) - sum(1 for t in l_p if t[0] in DEF_KINDS))
+    # declarations, gate definitions and circuits: those of the calibration-expanded program (a DECLARE in a calibration body is
+    # hoisted into the declarations by the expansion)
+    exp_defs = split(l_e, len(b_e))
+    for kind in ("Declaration", "GateDefinition", "CircuitDefinition"): src[kind] = exp_defs[kind]
     got = split(l_s, len(b_s))
     req("no-calibrations", "", not got["CalibrationDefinition"] and not got["MeasureCalibrationDefinition"])
     for kind in ("Declaration", "GateDefinition", "CircuitDefinition"):
